@@ -228,3 +228,22 @@ package memdb
 //@   loop 1
 //@     invariant [C14:head-links-cleared-so-far] 0 <= n && p.n == 0 && p.kvSize == 0 && len(p.kvData) == 0 && p.maxHeight == 1 && (forall k int :: (0 <= k && k < n) ==> p.nodeData[4 + k] == 0)
 //@   ensures [C14:reset-empties-the-table-and-its-counters] p.n == 0 && p.kvSize == 0 && len(p.kvData) == 0 && p.maxHeight == 1 && p.nodeData[4] == 0 && p.nodeData[4 + p.maxHeight - 1] == 0
+
+// Free and Capacity are what the write path of package leveldb decides a buffer rotation on (DB.flush asks Free):
+// they are the spare room and the size of the arena, nothing else.
+//@ func (*DB).Free
+//@   props C14
+//@   safety off
+//@   ensures [C14:free-is-the-spare-room-of-the-arena] result == cap(p.kvData) - len(p.kvData)
+//@ func (*DB).Capacity
+//@   props C14
+//@   safety off
+//@   ensures [C14:capacity-is-the-size-of-the-arena] result == cap(p.kvData)
+
+// A new table is empty, with honest counters and a head node of full height (that make hands out zeroed links is
+// Go's own guarantee and is not modelled).
+//@ func New
+//@   props C14
+//@   safety off
+//@   ensures [C14:a-new-table-is-empty] result.n == 0 && result.kvSize == 0 && len(result.kvData) == 0 && result.maxHeight == 1
+//@   ensures [C14:the-head-node-of-a-new-table-has-full-height] len(result.nodeData) == 16 && result.nodeData[3] == 12
